@@ -42,13 +42,16 @@ def binary_pass(run, prop):
         raise common.BuildError('rrss binary does not build: ' + err[-2000:])
     binp = os.path.join(common.REPO, 'target', 'debug', 'rrss')
     big = [2000, 20000, 200000] if run.tier == 'quick' else [2000, 7000, 20000, 100000, 500000]
+    extra_big = []
     if prop == 'C01' and run.tier == 'quick':
-        big = [2000, 20000]           # (the C12 check runs the 200 000 sizes in its quick tier)
+        big = [2000, 20000]           # (the C12 check runs the 200 000 sizes in its quick tier; here only for comments / punctuation)
+        extra_big = [('gap:%r' % u, 200000, 'say x' + u * 200000 + ' y\n') for u in ('(c) ', '?', "'", ' ')]
     texts_ = []
     for n in big:
         for unit in ['?', '!', ';', "'", ' ', '\t', '\n', '?! ', "' ", '; \n', '.', ',', '(c) ', '"s" ', 'x ', 'x\n', '5 ', 'é ']:
             texts_.append(('gap:%r' % unit, n, 'say x' + unit * n + ' y\n'))
             texts_.append(('lead:%r' % unit, n, unit * n + 'say x\n'))
+    texts_ += extra_big
     for k, n, t in texts.scale_programs(run.tier == 'quick'):
         if not k.startswith(('nested', 'nots', 'subscript', 'operands', 'arguments', 'list-elements', 'params')):
             texts_.append((k, n, t))
